@@ -1,11 +1,13 @@
 #!/usr/bin/env python3
 """Import a sub-agent's deliverables (/tmp/seed/<ID>_out/patch_X.diff, demo_X.py, notes.md) into seeded/<ID>-x/.
-usage: tools/seeded_import.py C06 A "what it needs to manifest" """
+usage: tools/seeded_import.py C06 A "what it needs to manifest" [out-dir-suffix new-letter]"""
 import json, os, shutil, sys
 HERE = os.path.dirname(os.path.dirname(os.path.abspath(__file__)))
 pid, letter, needs = sys.argv[1], sys.argv[2], sys.argv[3]
-src = '/tmp/seed/%s_out' % pid
-dst = os.path.join(HERE, 'seeded', '%s-%s' % (pid, letter.lower()))
+suffix = sys.argv[4] if len(sys.argv) > 4 else ''
+new_letter = sys.argv[5] if len(sys.argv) > 5 else letter.lower()
+src = '/tmp/seed/%s_out%s' % (pid, suffix)
+dst = os.path.join(HERE, 'seeded', '%s-%s' % (pid, new_letter))
 os.makedirs(dst, exist_ok=True)
 shutil.copy(os.path.join(src, 'patch_%s.diff' % letter), os.path.join(dst, 'patch.diff'))
 shutil.copy(os.path.join(src, 'demo_%s.py' % letter), os.path.join(dst, 'demo.py'))
@@ -13,6 +15,6 @@ if os.path.exists(os.path.join(src, 'notes.md')):
     shutil.copy(os.path.join(src, 'notes.md'), os.path.join(dst, 'agent_notes.md'))
 meta = {'property': pid, 'origin': 'independent sub-agent given only the property text and a scratch worktree of /repo (HEAD with the fix: commits)',
         'needs_to_manifest': needs, 'demo': 'demo.py', 'check_with': [pid],
-        'confirmed': 'tools/seeded_eval.py --only %s-%s: demo exits 0 on the pristine copy, the 69 repository tests pass with the patch, demo exits non-zero with the patch' % (pid, letter.lower())}
+        'confirmed': 'tools/seeded_eval.py --only %s-%s: demo exits 0 on the pristine copy, the 69 repository tests pass with the patch, demo exits non-zero with the patch' % (pid, new_letter)}
 json.dump(meta, open(os.path.join(dst, 'meta.json'), 'w'), indent=1)
 print('imported', dst)
